@@ -89,6 +89,7 @@ func formatsFor(t reflect.Type) []string {
 	}
 	return nil
 }
+
 var peerTypes = []reflect.Type{tPTo, tPToPtr, tPJSON, tPJSONPtr, tPText, tPAppend, tPFunc}
 
 // SetIDBase makes peer IDs start above base (keeps IDs of different calls apart).
